@@ -206,6 +206,19 @@ def tie_cases(ck, tier):
             for _ in range(n)]
     add("value-url", "urlsheet", all3, {"scss": "z{y: ", "css": "z{y: ", "sass": "z\n  y: "}, subs,
         {"scss": "}", "css": "}", "sass": "\n"})
+    # hex escapes at the edges of the scalar ranges (\d7ff \d800 \dfff \e000 \10ffff \110000 \0 …, 1-6 digits,
+    # with/without the trailing space), exhaustively, in every context that consumes an escape
+    esc = g.edge_escapes()
+    add("charset-string", "ws+string", all3, "@charset", [' "' + e + '"' for e in esc] + [" '" + e + "x'" for e in esc], SENT)
+    add("value-string", "istring", all3, {"scss": "z{y: ", "css": "z{y: ", "sass": "z\n  y: "}, ['"' + e + '"' for e in esc] + ['"a' + e + 'f"' for e in esc],
+        {"scss": "}", "css": "}", "sass": "\n"})
+    add("variable-name", "identn", ("scss", "sass"), "$", ["a" + e for e in esc] + [e + "a" for e in esc], {"scss": ":1;z{y:x}", "sass": ":1\nz\n  y: x\n"})
+    add("at-rule-name", "iident", all3, "@", ["q" + e for e in esc], {"scss": " x;z{y:x}", "css": " x;z{y:x}", "sass": " x\nz\n  y: x\n"})
+    add("custom-property", "cpv", all3, {"scss": "z{--p:", "css": "z{--p:", "sass": "z\n  --p:"}, ["a" + e + "b" for e in esc] + ['"' + e + '"' for e in esc],
+        {"scss": ";y:x}", "css": ";y:x}", "sass": "\n  y: x\n"})
+    add("unknown-at-rule", "almostany", all3, "@q ", ["a" + e + "b" for e in esc] + ['"' + e + '"' for e in esc], SENT)
+    add("value-url", "urlsheet", all3, {"scss": "z{y: ", "css": "z{y: ", "sass": "z\n  y: "}, ["url(a" + e + ")" for e in esc] + ["u" + e[:0] + "\\72 l(" + e + ")" for e in esc[:20]],
+        {"scss": "}", "css": "}", "sass": "\n"})
     # pseudo-class argument: `z:q(<S>){y:x}` (almost_any_value on the selector, then
     # BaseParser::declaration_value in the selector parser)
     # (comments are dropped from selector text before it is re-parsed: no comment openers here)
@@ -458,6 +471,13 @@ def search_jobs(ck, tier, cases):
     # built-in functions with hostile arguments (evaluator)
     for _ in range(1500 if quick else 60000):
         add("builtin-calls", g.builtin_call(rng), {"syntax": "scss", "style": rng.choice([None, "compressed"])})
+    # every edge escape in every position that consumes one
+    for src, syn in g.escape_jobs():
+        add("escape-edges", src, {"syntax": syn, "style": rng.choice([None, "compressed"])})
+    # multi-line loud comments at varying columns, continuation lines led by ASCII / multi-byte white space
+    for _ in range(1500 if quick else 40000):
+        src, o = g.comment_layout_job(rng)
+        add("comment-layout", src, o)
     # unusual Unicode, NUL
     for _ in range(500 if quick else 20000):
         c = rng.choice(cases)
